@@ -91,6 +91,16 @@ static void ti_create(timg *t, pixman_format_code_t code, const pixman_indexed_t
     t->im = pixman_image_create_bits(code, t->W, t->H, (uint32_t *)t->bits, t->stride);
     if (!t->im) { fprintf(stderr, "create_bits failed for %08x W=%d\n", (unsigned)code, t->W); _exit(3); }
     if (pal) pixman_image_set_indexed(t->im, pal);
+    if (t->acc == 2) {
+        /* the callbacks are installed on an image that has already been used (validated) as a plain image: once as a source and once as a
+         * destination of a request that writes nothing; from then on it must behave like any other image with accessors */
+        uint32_t one = 0; pixman_image_t *scratch = pixman_image_create_bits(PIXMAN_a8r8g8b8, 1, 1, &one, 4);
+        ti_scramble(t);             /* back to the logical view for the plain use */
+        pixman_image_composite32(PIXMAN_OP_SRC, t->im, NULL, scratch, 0, 0, 0, 0, 0, 0, 1, 1);
+        if (pixman_format_supported_destination(code)) pixman_image_composite32(PIXMAN_OP_DST, scratch, NULL, t->im, 0, 0, 0, 0, 0, 0, 1, 1);
+        pixman_image_unref(scratch);
+        ti_scramble(t);
+    }
     if (t->acc) pixman_image_set_accessors(t->im, acc_read, acc_write);
 }
 static void ti_release(timg *t)     /* drop the pixman image, bring the store back to the logical view */
@@ -261,7 +271,7 @@ typedef struct {
     int cfg;
     int nf; int f[48];
     int nxo, nblocks, vm, fullbits;
-    int nvar; variant_t var[32];
+    int nvar; variant_t var[64];
 } lay_ctx;
 
 #define FLOAT_BG 0x3e            /* 0x3e3e3e3e = 0.1857..., a finite float */
@@ -539,7 +549,7 @@ static void lay_case(uint64_t idx, void *vctx)
         uint64_t per = (V->route == R_STORE8 && c->vm != VM_FULL) || V->route == R_STOREF ? 8 : V->route == R_SELF ? 4 : 1;
         vf_count_eval((uint64_t)N * per);
         vf_count_nontrivial(nontriv * per);
-        ST_ADD(conv[V->route], (uint64_t)N * per); ST_ADD(by_mode[mode], (uint64_t)N * per); ST_ADD(by_acc[acc], (uint64_t)N * per);
+        ST_ADD(conv[V->route], (uint64_t)N * per); ST_ADD(by_mode[mode], (uint64_t)N * per); ST_ADD(by_acc[acc ? 1 : 0], (uint64_t)N * per);
         ST_ADD(by_cfg[c->cfg], (uint64_t)N * per);
         vf_outcome(vf_mix(outcome, (uint64_t)F->code));
         if (block == c->nblocks / 2 && xo == 1 && dg[3] == c->nf - 1 && dg[2] == (c->nf * 7 + c->cfg) % c->nvar && vf_want_sample() && N > 2) {
@@ -976,7 +986,7 @@ static int add_variants(variant_t *v, int routes_mask, int modes_mask, int acc_m
     int n = 0;
     for (int r = 0; r < NROUTES; r++) if (routes_mask & (1 << r))
         for (int m = 0; m < NMODES; m++) if (modes_mask & (1 << m))
-            for (int a = 0; a < 2; a++) if (acc_mask & (1 << a)) { v[n].route = r; v[n].mode = m; v[n].acc = a; n++; }
+            for (int a = 0; a < 3; a++) if (acc_mask & (1 << (a ? 1 : 0))) { v[n].route = r; v[n].mode = m; v[n].acc = a; n++; }   /* a = 2: accessors installed after a first plain use */
     return n;
 }
 
